@@ -742,7 +742,9 @@ void printAstTermNode(ASTNode const & astNode) {
         assert(attr_l.getType() == GATTRL_T);
         assert(attr_l.children->size() == 1);
         ASTNode& name_attr = **(attr_l.children->begin());
-        std::cout << "(! ";
+        // a compound term brings its own opening parenthesis; a symbol or constant must be separated from the "!"
+        ASTType const namedType = named_term.getType();
+        std::cout << ((namedType == TERM_T or namedType == QID_T) ? "(! " : "(!");
         printAstTermNode(named_term);
         std::cout << " " << name_attr.getValue();
         if (name_attr.children != nullptr and not name_attr.children->empty()) {
